@@ -1,74 +1,183 @@
 """C11 -- viscoelastic models: dissipation >= 0, isochoric viscous flow, limits of the time step.
 
-Both modules (single branch and three branches) are interpreted on generic symbolic tensors with exact
-rational entries (optilint.tensoreval); the trial elastic strain and the equilibrium energy are abstracted
-by generic symbols so that the algebra of the update is isolated.
+The two model factories (single branch and three branches) are *called* by the abstract interpreter (optilint.tensoreval,
+the library is never executed) and the closures of the public `MaterialModel` interface they return -- energy density, new
+state, dissipated energy -- are interpreted on generic symbolic inputs (generic 3x3 displacement gradient, generic state
+vector, positive symbols for dt and the material constants).  Only library-level primitives are abstracted, each by a generic
+symbolic matrix that is memoised on its (exact) argument, so the same strain computed three times, in any order, in loops,
+comprehensions or extracted helpers with any signature, is the same symbol:
 
-  D1  isochoric: the viscous strain increment is identically traceless and the new distortion of every branch is
-      expm(increment of that branch) @ old distortion of that branch (layout + frames);
-  D2  dissipation: the dissipation potential equals G*tau*dev(D):dev(D) (a positive multiple of a sum of squares)
-      and the reported dissipated energy is dt * potential(increment/dt);
-  D3  limits: the stored energy minus the equilibrium energy is c(dt) * dev(E):dev(E) with c a rational function
-      whose value at dt = 0 is the sum of branch moduli (instantaneous response) and whose limit dt -> infinity is 0
-      (equilibrium response); the update factor dt/(tau + dt) lies in [0, 1);
-  D4  tables: property index constants, _make_properties order and the per-branch index map agree; energy,
-      dissipation and state update of a branch use the same increment of the same trial strain.
+     inverse of a non-diagonal matrix                 V_k      (argument recorded: which state block it inverts)
+     isotropic function of a symmetric tensor         M_k      symmetric (log / sqrt / pow: the trial elastic strain)
+     matrix exponential                               X_k      (argument recorded: the viscous strain increment)
+
+Everything else (deviators, norms, the Prony sums, property look-ups, state slicing and packing, private helpers whatever
+their names and signatures) is interpreted exactly.  Roles are read off the *values*:
+
+   branch b             the b-th block of nine state entries (block count = length of the model's initial state / 9)
+   increment A_b        the argument of the exponential whose product with the old distortion of block b is block b of the new state
+   relaxed strain T_b   lim dt->inf A_b  (= dev of the trial strain), factor f_b = A_b / T_b (a rational function of dt)
+   tau_b, G_b           the relaxation time in f_b and the modulus with the same branch suffix (public property keys)
+   W_eq                 the energy with all strain symbols set to zero;  q_b = T_b : T_b
+
+  D1  isochoric: A_b is identically traceless (T9-traceless-increment); block b of the new state is X(A_b) @ old block b and A_b is
+      built from the trial strain of block b only (T5-distortion-update; a result that is provably the product with ANOTHER block, or whose
+      determinant differs from det(old block) for an explicit unimodular witness, is refuted); frames of the update (T9-frames, rules/frames.py);
+  D2  dissipation: reported dissipated energy = sum_b c_b q_b with c_b = G_b tau_b f_b^2/dt > 0  -- the dissipative part of the
+      incremental potential, a positive multiple of a sum of squares for every branch;
+  D3  limits: f_b = dt/(tau_b + dt) (0 at dt = 0, -> 1 as dt -> inf, in (0,1)); W - W_eq = sum_b G_b[(1-f_b)^2 + tau_b f_b^2/dt] q_b,
+      W(dt = 0) = W_eq + sum_b G_b q_b (instantaneous response), W - W_eq -> 0 as dt -> inf (equilibrium response);
+  D4  tables: every branch uses the modulus and the relaxation time of ONE branch suffix, different branches use different suffixes;
+      the public index constants PROPS_* address the property they name in the vector the kernels index.
 Not decided: monotone decay of the stored energy over multi-step histories (numerical).
 """
 from __future__ import annotations
 
 import ast
+import itertools
+import re
+from fractions import Fraction
 
 from optilint.core import Incomplete
-from optilint.expr import Poly, Rat
-from optilint.tensoreval import (Dual, Arr, EvalError, Raised, _A, rat_is_zero, rat_sign, PosVec, sum_d, matmul)
-from .common import src
+from optilint.expr import Poly, Rat, simplify, NotPolynomial
+from optilint import tensoreval as te
+from optilint.tensoreval import (Interp, Dual, Arr, EvalError, Raised, Record, _A, rat_is_zero, rat_sign, rat_const, sum_d, matmul)
 from . import materials as mt
 from . import frames
-from .tensorid import generic
 
 LEVEL = "other"
-RULE_TEXT = ("obligations = (module x identity of the increment / dissipation / energy coefficient) + (limit of the coefficient at dt=0 and "
-             "dt=inf) + (property slot x name) + (branch x layout) + frames")
-EXPLANATION = ("Abstract interpretation of HyperViscoelastic and MultiBranchHyperViscoelastic on generic symbolic tensors: exact "
-               "identities for tracelessness, the dissipation potential and the dt-dependence of the stored energy (value at 0 and limit at "
-               "infinity of a rational function), slot tables, and frame typing of the distortion update. Monotone relaxation over "
-               "histories is not decided.")
+RULE_TEXT = ("obligations = (model x branch: increment traceless / update factor / distortion update / dissipation coefficient / property pairing) + "
+             "(model: energy form, value at dt=0, limit dt=inf, dissipated energy) + (property slot x name) + frames + eigen solver algebra")
+EXPLANATION = ("Abstract interpretation of the factories of HyperViscoelastic and MultiBranchHyperViscoelastic and of the model closures they "
+               "return on generic symbolic tensors (inverse, spectral functions and expm abstracted by memoised generic matrices): exact "
+               "identities for tracelessness, the dissipated energy and the dt-dependence of the stored energy (value at 0 and limit at "
+               "infinity of a rational function), role-based pairing of branch properties, and frame typing of the distortion update. "
+               "Monotone relaxation over histories is not decided.")
 
-MODS = [("optimism.material.HyperViscoelastic", 1), ("optimism.material.MultiBranchHyperViscoelastic", 3)]
+MODS = [("optimism.material.HyperViscoelastic", "create_material_model_functions"),
+        ("optimism.material.MultiBranchHyperViscoelastic", "create_material_model_functions")]
+G_KEY, TAU_KEY = "non equilibrium shear modulus", "relaxation time"
+_EXC = (EvalError, Raised, KeyError, IndexError, TypeError, AttributeError, ValueError, ZeroDivisionError, NotPolynomial, RecursionError)
 
 
 def run(ctx):
-    for (m, nb) in MODS:
+    for (m, fac) in MODS:
         ctx.need_module(m)
-        one_module(ctx, m, nb)
-    ctx.guard(frames.run_frames_state_only, ctx, "D1/T9-frames", [m + ":_compute_state_new" for (m, _) in MODS])
+        ctx.guard(one_model, ctx, m, fac)
+    ctx.guard(frames.analyse_models, ctx, "D1/T9-frames", [(m, fac, "solid") for (m, fac) in MODS], parts=("energy", "state"))
     from . import units
     ctx.guard(units.run, ctx, "D3/T8-dimensional-homogeneity", {m for (m, _) in MODS}, min_scenarios=4)
     # the elastic trial strain is log_sqrt_symm of a symmetric tensor: the closed-form eigen solver it relies on (shared with C12)
     from . import eigenalg
     ctx.need_module("optimism.TensorMath")
     ctx.guard(eigenalg.run, ctx, "D3/T7-eigen-solver-algebra", "optimism.TensorMath:eigen_sym33_non_unit")
-    ctx.trust("det expm(A) = exp(tr A); dev(A):dev(A) is a sum of squares")
+    ctx.trust("det expm(A) = exp(tr A); dev(A):dev(A) is a sum of squares; det(X Y) = det X det Y")
     ctx.assume("moduli, relaxation times and dt are positive")
 
 
-def sym_generic(prefix):
-    names = {(i, j): f"{prefix}{min(i, j)}{max(i, j)}" for i in range(3) for j in range(3)}
-    return Arr([Dual(_A.atom(names[(i, j)])) for i in range(3) for j in range(3)], (3, 3))
+# ------------------------------------------------------------------------------------------------ symbolic interpreter
+
+def _generic(prefix, symmetric=False):
+    if symmetric:
+        return Arr([Dual(_A.atom(f"{prefix}{min(i, j)}{max(i, j)}")) for i in range(3) for j in range(3)], (3, 3))
+    return Arr([Dual(_A.atom(f"{prefix}{i}{j}")) for i in range(3) for j in range(3)], (3, 3))
 
 
-def dev_sq(E):
-    tr = E.data[0] + E.data[4] + E.data[8]
-    D = [E.data[i * 3 + j] - (tr / Dual(3) if i == j else Dual(0)) for i in range(3) for j in range(3)]
-    return sum_d(x * x for x in D)
+def _key(arr: Arr):
+    return (arr.shape, tuple(repr(simplify(_A.norm(x.a))) for x in arr.data))
+
+
+class ViscoInterp(Interp):
+    """constant-propagating interpreter with three abstractions (inverse, spectral function, expm), each memoised on its argument"""
+
+    def __init__(self, repo):
+        super().__init__(repo, max_depth=60)
+        self.inv_calls, self.spec_calls, self.expm_calls = [], [], []       # [(argument Arr, result Arr, extra)]
+        self._memo = {}
+        self.calls = []               # all abstractions in creation order: (kind, argument, result, extra)
+        self.prop_vectors = []
+        self.spec_fns = {}            # off-diagonal symbol of a spectral result -> the scalar function that was applied
+        self.special["optimism.TensorMath:symmetric_matrix_function"] = lambda it, a, k: it.spectral_fn(*_bind(a, k, ("A", "func")))
+        self.special["optimism.TensorMath:inv"] = lambda it, a, k: it.inverse(_bind(a, k, ("A",))[0])
+        self.special["optimism.Math:safe_sqrt"] = lambda it, a, k: te.d_fun("sqrt", it.num(a[0]))
+
+    def _abstract(self, kind, table, arg: Arr, symmetric, extra=None):
+        k = (kind, extra, _key(arg))
+        if k not in self._memo:
+            sym = _generic(f"{kind}{len(table)}_", symmetric)
+            table.append((arg, sym, extra))
+            self.calls.append((kind, arg, sym, extra))
+            self._memo[k] = sym
+        return self._memo[k]
+
+    def inverse(self, A_):
+        A_ = self.num(A_)
+        if isinstance(A_, Arr) and A_.ndim == 2 and A_.is_diagonal():
+            return Interp.np_call(self, "linalg.inv", [A_], {})
+        if not (isinstance(A_, Arr) and A_.shape == (3, 3)):
+            raise EvalError("inverse of a value that is not a 3x3 matrix")
+        return self._abstract("v", self.inv_calls, A_, False)
+
+    def spectral_fn(self, A_, f):
+        A_ = self.num(A_)
+        if not (isinstance(A_, Arr) and A_.shape == (3, 3)):
+            raise EvalError("spectral function of a value that is not a 3x3 matrix")
+        if A_.is_diagonal():
+            out = [Dual(0)] * 9
+            for i in range(3):
+                out[i * 3 + i] = self.num(self.call(f, [A_.data[i * 3 + i]], {}))
+            return Arr(out, (3, 3))
+        try:
+            fk = repr(self.num(self.call(f, [Dual(_A.atom("@lambda"))], {})).a)
+        except _EXC:
+            fk = repr(f)
+        sym = self._abstract("m", self.spec_calls, A_, True, extra=fk)
+        self.spec_fns.setdefault(_single_atom(sym.data[1].a), f)
+        return sym
+
+    def call_ext(self, name, args, kwargs):
+        if name == "jax.scipy.linalg.expm" or name.endswith("linalg.expm"):
+            A_ = self.num(args[0])
+            if isinstance(A_, Arr) and A_.shape == (3, 3) and not A_.is_diagonal():
+                return self._abstract("x", self.expm_calls, A_, False)
+        return super().call_ext(name, args, kwargs)
+
+    def np_call(self, fn, args, kwargs):
+        if fn == "linalg.inv" and args:
+            return self.inverse(args[0])
+        return super().np_call(fn, args, kwargs)
+
+    def getitem(self, base, key):
+        if isinstance(base, Arr) and base.ndim == 1 and len(base.data) >= 2 and not any(base is v for v in self.prop_vectors):
+            if all(_single_atom(x.a, "prop<") for x in base.data):
+                self.prop_vectors.append(base)
+        return super().getitem(base, key)
+
+
+def _bind(args, kwargs, names):
+    vals = list(args) + [None] * (len(names) - len(args))
+    for k, v in kwargs.items():
+        if k in names:
+            vals[names.index(k)] = v
+    return vals[:len(names)]
+
+
+def _single_atom(r: Rat, prefix=""):
+    """the atom a if r == a exactly (and a starts with prefix)"""
+    r = simplify(_A.norm(r))
+    if r.d.is_const() and r.d.const_value() == 1 and len(r.n.t) == 1:
+        (mono, c), = r.n.t.items()
+        if c == 1 and len(mono) == 1 and mono[0][1] == 1 and mono[0][0].startswith(prefix):
+            return mono[0][0]
+    return None
 
 
 def limit_inf(r: Rat, atom):
     """limit of a rational function as atom -> +infinity: (value Rat | 'inf' | None)"""
+    r = simplify(_A.norm(r))
     n, d = r.n, r.d
     dn, dd = n.degree_in(atom), d.degree_in(atom)
-    if dn < dd:
+    if n.is_zero() or dn < dd:
         return Rat(Poly())
     if dn > dd:
         return "inf"
@@ -82,221 +191,517 @@ def limit_inf(r: Rat, atom):
                 mm = tuple(sorted(dm.items()))
                 out[mm] = out.get(mm, 0) + c
         return Poly(out)
-    return _A.norm(Rat(lead(n, dn), lead(d, dd)))
+    return simplify(_A.norm(Rat(lead(n, dn), lead(d, dd))))
 
 
-def one_module(ctx, mname, nb):
+def _drop(r: Rat, pred) -> Rat:
+    """r with every atom satisfying pred set to zero"""
+    r = _A.norm(r)
+    if any(pred(a) for a in r.d.atoms()):
+        out = r
+        for a in sorted(x for x in r.atoms() if pred(x)):
+            out = _A.subst(out, a, _A.const(0))
+        return simplify(out)
+    return simplify(Rat(Poly({m: c for m, c in r.n.t.items() if not any(pred(a) for (a, _) in m)}), r.d))
+
+
+def _frob(T: Arr) -> Dual:
+    return sum_d(x * x for x in T.data)
+
+
+def _det3(M: Arr) -> Dual:
+    g = lambda i, j: M.data[i * 3 + j]
+    return g(0, 0) * g(1, 1) * g(2, 2) + g(0, 1) * g(1, 2) * g(2, 0) + g(0, 2) * g(1, 0) * g(2, 1) \
+        - g(0, 0) * g(1, 2) * g(2, 1) - g(0, 1) * g(1, 0) * g(2, 2) - g(0, 2) * g(1, 1) * g(2, 0)
+
+
+def _arr_equal(X: Arr, Y: Arr):
+    return X.shape == Y.shape and all(_A.equal(x.a, y.a) for x, y in zip(X.data, Y.data))
+
+
+def _short(r, n=200):
+    s = repr(r)
+    return s if len(s) <= n else s[:n] + "..."
+
+
+def _suffix(atom, key):
+    """'prop<relaxation time 2>' -> ' 2' ; 'prop<relaxation time>' -> '' ; None when atom is not this key"""
+    m = re.fullmatch(r"prop<" + re.escape(key) + r"( \d+)?>", atom)
+    return None if m is None else (m.group(1) or "")
+
+
+# ------------------------------------------------------------------------------------------------ one model
+
+def one_model(ctx, mname, fac_name):
     mod = ctx.need_module(mname)
     short = mname.split(".")[-1]
-    I = mt.make_interp(ctx.repo)
+    fac = ctx.need(f"{mname}:{fac_name}")
+    I = ViscoInterp(ctx.repo)
     props_d = mt.PropDict(I, {}, set())
-    fac = ctx.need(f"{mname}:create_material_model_functions")
-    try:
-        props = I.call(I.module_value(mod, "_make_properties"), [props_d], {})
-    except (EvalError, Raised, KeyError, TypeError) as ex:
-        ctx.undecided("D4/T5-property-slots", fac, None, construct=f"{short}:_make_properties", detail=str(ex))
-        return
     dt = Dual(_A.atom("dt"))
     I.positive.add("dt")
-    # ---- D4: slot table
-    rule = "D4/T5-property-slots"
-    want = {"PROPS_K_eq": "equilibrium bulk modulus", "PROPS_G_eq": "equilibrium shear modulus"}
-    if nb == 1:
-        want.update({"PROPS_G_neq": "non equilibrium shear modulus", "PROPS_TAU": "relaxation time"})
-    else:
-        for k in range(1, nb + 1):
-            want[f"PROPS_G_neq_{k}"] = f"non equilibrium shear modulus {k}"
-            want[f"PROPS_TAU_{k}"] = f"relaxation time {k}"
-    for const, key in want.items():
-        try:
-            idx = I.module_value(mod, const)
-            got = props.data[idx].a
-            ok = _A.equal(got, _A.atom(f"prop<{key}>"))
-        except (EvalError, KeyError, IndexError, TypeError) as ex:
-            ctx.undecided(rule, mod.scope, None, construct=f"{short}:{const}", detail=str(ex))
-            continue
-        ctx.decide(rule, ok, mod.scope, None, construct=f"{short}:{const}", detail=f"props[{const}={idx}] is '{key}'",
-                   bad_detail=f"{short}: props[{const}={idx}] holds {got!r}, not '{key}' (index constant and _make_properties order disagree)")
-    branch_ids = []
-    if nb > 1:
-        for n in range(nb):
-            try:
-                gid = I.call(I.module_value(mod, "_return_Gneq_id_for_branch"), [n], {})
-                gid = I.as_int(gid)
-                okb = _A.equal(props.data[gid].a, _A.atom(f"prop<non equilibrium shear modulus {n + 1}>")) and \
-                    _A.equal(props.data[gid + 1].a, _A.atom(f"prop<relaxation time {n + 1}>"))
-            except (EvalError, KeyError, IndexError, TypeError) as ex:
-                ctx.undecided(rule, mod.scope, None, construct=f"{short}:branch-{n}", detail=str(ex))
-                continue
-            branch_ids.append(gid)
-            ctx.decide(rule, okb, ctx.need(f"{mname}:_return_Gneq_id_for_branch"), None, construct=f"{short}:branch-{n}-slots",
-                       detail=f"branch {n} uses props[{gid}] (modulus {n + 1}) and props[{gid + 1}] (relaxation time {n + 1})",
-                       bad_detail=f"branch {n} reads props[{gid}] = {props.data[gid].a!r} and props[{gid + 1}] = {props.data[gid + 1].a!r}; "
-                                  f"expected modulus and relaxation time of branch {n + 1}")
-    # ---- D1: increment traceless ; D3 factor
-    rule = "D1/T9-traceless-increment"
-    E = sym_generic("e")
-    inc_fn = I.module_value(mod, "_compute_state_increment")
-    incs = []
-    for b in range(nb):
-        args = [E, dt, props] + ([branch_ids[b]] if nb > 1 and b < len(branch_ids) else [])
-        sc = ctx.need(f"{mname}:_compute_state_increment")
-        try:
-            inc = I.call(inc_fn, args, {})
-            tr = inc.data[0] + inc.data[4] + inc.data[8]
-        except (EvalError, Raised, KeyError, IndexError, TypeError) as ex:
-            ctx.undecided(rule, sc, None, construct=f"{short}:increment[{b}]", detail=str(ex))
-            continue
-        incs.append(inc)
-        ctx.decide(rule, rat_is_zero(tr.a), sc, None, construct=f"{short}:increment[{b}]-traceless", detail="viscous strain increment is identically traceless",
-                   bad_detail=f"{short}: the viscous strain increment of branch {b} has trace {tr.a!r}: viscous flow would change volume")
-        # factor: inc = f * dev(E) with f = dt/(tau + dt)
-        tauname = f"prop<relaxation time{'' if nb == 1 else ' ' + str(b + 1)}>"
-        f_want = _A.norm(_A.atom("dt") / (_A.atom(tauname) + _A.atom("dt")))
-        # off-diagonal entry (0,1): inc01 = f * e01
-        f_got = _A.norm(inc.data[1].a / _A.atom("e01"))
-        okf = _A.equal(f_got, f_want)
-        l0 = _A.subst(f_got, "dt", _A.const(0)) if okf else None
-        li = limit_inf(f_got, "dt") if okf else None
-        ctx.decide("D3/T7-update-factor", okf and rat_is_zero(l0) and isinstance(li, Rat) and _A.equal(li, _A.const(1)), sc, None,
-                   construct=f"{short}:factor[{b}]", detail=f"increment = [dt/(tau+dt)] dev(E): 0 at dt=0, -> 1 as dt -> inf",
-                   bad_detail=f"{short}: increment factor of branch {b} is {f_got!r}; backward Euler gives dt/(tau+dt) (0 at dt = 0, limit 1 at infinity)")
-    # ---- D2: dissipation potential
-    rule = "D2/T8-dissipation-nonnegative"
-    D = sym_generic("d")
-    dp = I.module_value(mod, "_dissipation_potential")
-    for b in range(nb):
-        sc = ctx.need(f"{mname}:_dissipation_potential")
-        args = [D, props] + ([branch_ids[b]] if nb > 1 and b < len(branch_ids) else [])
-        try:
-            psi = I.num(I.call(dp, args, {}))
-            suffix = "" if nb == 1 else f" {b + 1}"
-            want = Dual(_A.atom(f"prop<non equilibrium shear modulus{suffix}>")) * Dual(_A.atom(f"prop<relaxation time{suffix}>")) * dev_sq(D)
-            ok = _A.equal(psi.a, want.a)
-        except (EvalError, Raised, KeyError, IndexError, TypeError) as ex:
-            ctx.undecided(rule, sc, None, construct=f"{short}:potential[{b}]", detail=str(ex))
-            continue
-        ctx.decide(rule, ok, sc, None, construct=f"{short}:potential[{b}]=G*tau*|dev D|^2", detail="positive multiple of a sum of squares",
-                   bad_detail=f"{short}: dissipation potential of branch {b} is {psi.a!r}, not G*tau*dev(D):dev(D) >= 0")
-    # dissipated energy and energy coefficient with abstracted trial strain / equilibrium energy
-    I2 = mt.make_interp(ctx.repo)
-    Es = [sym_generic(f"e{b}_") if nb > 1 else sym_generic("e") for b in range(nb)]
-    counter = {"k": 0}
-
-    def strain(interp, a, k):
-        b = counter["k"] % nb
-        counter["k"] += 1
-        return Es[b]
-    I2.special[f"{mname}:_compute_elastic_logarithmic_strain"] = strain
-    I2.special[f"{mname}:_eq_strain_energy"] = lambda interp, a, k: Dual(_A.atom("Weq"))
-    state = Arr([Dual(_A.atom(f"s{k}")) for k in range(9 * nb)], (9 * nb,))
-    H = generic("h")
-    sc_e = ctx.need(f"{mname}:_energy_density")
-    sc_d = ctx.need(f"{mname}:_compute_dissipated_energy")
+    H = _generic("h")
+    te.OPAQUE[0] = True
     try:
-        counter["k"] = 0
-        W = I2.num(I2.call(I2.module_value(mod, "_energy_density"), [H, state, dt, props], {}))
-        counter["k"] = 0
-        Dis = I2.num(I2.call(I2.module_value(mod, "_compute_dissipated_energy"), [H, state, dt, props], {}))
-    except (EvalError, Raised, KeyError, IndexError, TypeError) as ex:
-        ctx.undecided("D3/T7-energy-limits", sc_e, None, construct=f"{short}:energy", detail=str(ex))
-        return
-    # expected: W = Weq + sum_b G_b [ (1-f_b)^2 + tau_b f_b^2/dt ] |dev E_b|^2 ; Dis = sum_b G_b tau_b f_b^2/dt |dev E_b|^2
-    Wexp = Dual(_A.atom("Weq"))
-    Dexp = Dual(0)
-    W0 = Dual(_A.atom("Weq"))
-    for b in range(nb):
-        suffix = "" if nb == 1 else f" {b + 1}"
-        G = Dual(_A.atom(f"prop<non equilibrium shear modulus{suffix}>"))
-        tau = Dual(_A.atom(f"prop<relaxation time{suffix}>"))
-        f = dt / (tau + dt)
-        q = dev_sq(Es[b])
-        Wexp = Wexp + G * ((Dual(1) - f) * (Dual(1) - f) + tau * f * f / dt) * q
-        Dexp = Dexp + G * tau * f * f / dt * q
-        W0 = W0 + G * q
-    okd = _A.equal(Dis.a, Dexp.a)
-    ctx.decide("D2/T8-dissipation-nonnegative", okd, sc_d, None, construct=f"{short}:dissipated-energy",
-               detail="dissipated energy = sum_b G_b tau_b f_b^2/dt |dev E_b|^2 >= 0 (each factor positive)",
-               bad_detail=f"{short}: reported dissipated energy is {Dis.a!r}; expected sum over branches of G*tau*(dt/(tau+dt))^2/dt*|dev E|^2")
-    oke = _A.equal(W.a, Wexp.a)
-    ctx.decide("D3/T7-energy-limits", oke, sc_e, None, construct=f"{short}:energy-form",
-               detail="W = W_eq + sum_b G_b[(1-f_b)^2 + tau_b f_b^2/dt]|dev E_b|^2 with the same increment in stored energy and dissipation",
-               bad_detail=f"{short}: energy is not W_eq + sum_b G_b[(1-f_b)^2 + tau_b f_b^2/dt]|dev E_b|^2 (difference {_A.norm(W.a - Wexp.a)!r}): stored energy, "
-                          f"increment and dissipation do not use the same updated strain")
-    # limits of the actual W
-    try:
-        w_at0 = _A.subst(_A.norm(W.a), "dt", _A.const(0))
-        ok0 = _A.equal(w_at0, W0.a)
-    except ZeroDivisionError:
-        ok0 = False
-        w_at0 = "undefined"
-    ctx.decide("D3/T7-energy-limits", ok0, sc_e, None, construct=f"{short}:dt->0-instantaneous",
-               detail="W(dt = 0) = W_eq + sum_b G_b |dev E_b|^2 (all branches elastic)",
-               bad_detail=f"{short}: at dt = 0 the energy is {w_at0!r}, not the instantaneous value W_eq + sum_b G_b|dev E_b|^2")
-    li = limit_inf(_A.norm(W.a - _A.atom("Weq")), "dt")
-    oki = isinstance(li, Rat) and rat_is_zero(li)
-    ctx.decide("D3/T7-energy-limits", oki, sc_e, None, construct=f"{short}:dt->inf-equilibrium",
-               detail="W - W_eq -> 0 as dt -> infinity",
-               bad_detail=f"{short}: as dt -> infinity the non-equilibrium part of the energy tends to {li!r}, not 0")
-    # ---- D1: state update layout per branch
+        try:
+            model = I.call(I.module_value(mod, fac_name), [props_d], {})
+            st0 = I.call(model.get("compute_initial_state"), [], {})
+            st0 = st0.ravel()
+            N = st0.shape[0]
+            if N == 0 or N % 9 != 0:
+                raise EvalError(f"the initial state has {N} entries, not a whole number of 3x3 viscous distortions")
+            nb = N // 9
+            state = Arr([Dual(_A.atom(f"s{k}")) for k in range(N)], (N,))
+            new = I.call(model.get("compute_state_new"), [H, state, dt], {})
+            W = I.num(I.call(model.get("compute_energy_density"), [H, state, dt], {}))
+            qoi = model.get("compute_material_qoi")
+            Dis = I.num(I.call(qoi, [H, state, dt], {})) if qoi is not None else None
+        except _EXC as ex:
+            ctx.undecided("D3/T7-energy-limits", fac, None, construct=f"{short}:model", detail=f"cannot interpret the model on generic tensors: {type(ex).__name__}: {ex}")
+            return
+    finally:
+        te.OPAQUE[0] = False
+    for q in I.visited:
+        s_ = ctx.repo.find(q)
+        if s_ is not None:
+            ctx.touch(s_)
+    sc_new = _scope_of_field(ctx, model, "compute_state_new", fac)
+    sc_W = _scope_of_field(ctx, model, "compute_energy_density", fac)
+    sc_D = _scope_of_field(ctx, model, "compute_material_qoi", fac)
+    Fv = [Arr(state.data[9 * b: 9 * b + 9], (3, 3)) for b in range(nb)]
+    # which state block(s) every abstract symbol descends from (through inverses, spectral functions, exponentials, in creation order)
+    origin = {f"s{k}": {k // 9} for k in range(N)}
+    strain_blocks = {}
+    for (kind, arg, sym, _) in I.calls:
+        bl = set()
+        for x in arg.data:
+            for a in x.a.atoms():
+                bl |= origin.get(a, set())
+        for x in sym.data:
+            for a in x.a.atoms():
+                origin[a] = bl
+                if kind == "m":
+                    strain_blocks[a] = bl
+    is_strain = lambda a: a in strain_blocks
+    # exponentials: the matrix exponential and spectral functions whose scalar function is exp
+    exps = [(arg, X) for (arg, X, _) in I.expm_calls] + [(arg, X) for (arg, X, fk) in I.spec_calls if str(fk).startswith("exp[")]
+    # ---- D1/T5: the state update, block by block
     rule = "D1/T5-distortion-update"
-    I3 = mt.make_interp(ctx.repo)
-    counter3 = {"k": 0}
-    Xs = [generic(f"x{b}_") for b in range(nb)]
-    seen = []
-
-    def strain3(interp, a, k):
-        b = counter3["k"] % nb
-        counter3["k"] += 1
-        seen.append(("strain", a[1]))
-        return Es[b]
-
-    def expm(interp, a, k):
-        seen.append(("expm", a[0]))
-        return Xs[(len([s for s in seen if s[0] == "expm"]) - 1) % nb]
-    I3.special[f"{mname}:_compute_elastic_logarithmic_strain"] = strain3
-    orig_ext = I3.call_ext
-
-    def call_ext(name, args, kwargs):
-        if name == "jax.scipy.linalg.expm":
-            return expm(I3, args, kwargs)
-        return orig_ext(name, args, kwargs)
-    I3.call_ext = call_ext
-    sc_s = ctx.need(f"{mname}:_compute_state_new")
-    try:
-        new = I3.call(I3.module_value(mod, "_compute_state_new"), [H, state, dt, props], {})
-        ok = isinstance(new, Arr) and new.ravel().shape == (9 * nb,)
+    incs = {}
+    if not (isinstance(new, Arr) and new.size() == N):
+        ctx.undecided(rule, sc_new, None, construct=f"{short}:state-update", detail=f"the new state is {new!r}, the old one has {N} entries")
+        new_blocks = []
+    else:
         new = new.ravel()
-        for b in range(nb):
-            Fv_old = Arr(state.data[9 * b: 9 * b + 9], (3, 3))
-            want = matmul(Xs[b], Fv_old)
-            got = Arr(new.data[9 * b: 9 * b + 9], (3, 3))
-            okb = all(_A.equal(x.a, y.a) for x, y in zip(got.data, want.data))
-            # argument of expm for this branch is the increment of this branch's trial strain
-            ex_args = [s[1] for s in seen if s[0] == "expm"]
-            okarg = b < len(ex_args) and b < len(incs) and all(_A.equal(x.a, y.a) for x, y in zip(ex_args[b].data, _reinc(incs[b], Es[b], nb).data))
-            st_args = [s[1] for s in seen if s[0] == "strain"]
-            okst = b < len(st_args) and isinstance(st_args[b], Arr) and all(_A.equal(x.a, y.a) for x, y in zip(st_args[b].ravel().data, state.data[9 * b: 9 * b + 9]))
-            ctx.decide(rule, ok and okb and okarg and okst, sc_s, None, construct=f"{short}:branch-{b}",
+        new_blocks = [Arr(new.data[9 * b: 9 * b + 9], (3, 3)) for b in range(nb)]
+    for b, nb_ in enumerate(new_blocks):
+        hit = None
+        for (k, (arg, X)), j in itertools.product(enumerate(exps), range(nb)):
+            if _arr_equal(nb_, matmul(X, Fv[j])):
+                hit = (k, j, arg)
+                break
+        cons = f"{short}:branch-{b}"
+        if hit is not None:
+            k, j, arg = hit
+            src = set()
+            for x in arg.data:
+                for a in x.a.atoms():
+                    src |= origin.get(a, set())
+            incs[b] = arg
+            ok = (j == b) and src == {b}
+            ctx.decide(rule, ok, sc_new, None, construct=cons,
                        detail=f"Fv_new[{b}] = expm(increment of branch {b}) @ Fv_old[{b}], trial strain from Fv_old[{b}]",
-                       bad_detail=f"{short}: branch {b}: new distortion = expm(.) @ own old distortion: {okb}; expm argument is this branch's increment: {okarg}; "
-                                  f"trial strain computed from this branch's old distortion: {okst}; state length ok: {ok}")
-    except (EvalError, Raised, KeyError, IndexError, TypeError) as ex:
-        ctx.undecided(rule, sc_s, None, construct=f"{short}:state-update", detail=str(ex))
+                       bad_detail=f"{short}: block {b} of the new state is expm(A) @ (old distortion of block {j}) with A built from the trial strain of block(s) {sorted(src)}: "
+                                  f"branch {b} must evolve from its own old distortion and its own trial strain")
+            continue
+        # not of the recognised form: is it at least volume preserving?  det(new) must equal det(X) det(old) identically
+        try:
+            dnew = _det3(nb_)
+            ident = any(_A.equal(dnew.a, (_det3(X) * _det3(Fv[b])).a) for (_, X) in exps)
+        except _EXC:
+            ident = None
+        wit = _det_witness(I, exps, nb_, nb) if not ident else None
+        if wit is not None:
+            ctx.refuted(rule, sc_new, None, construct=cons,
+                        detail=f"{short}: block {b} of the new state is not expm(increment) @ old distortion and is not volume preserving: {wit}")
+        else:
+            ctx.undecided(rule, sc_new, None, construct=cons,
+                          detail=f"{short}: block {b} of the new state is not recognised as expm(increment) @ old distortion of that block"
+                                 + (" (its determinant is preserved)" if ident else ""))
+    # ---- D1 traceless, D3 update factor per branch
+    facs, Ts, taus = {}, {}, {}
+    for b in range(nb):
+        if b not in incs:
+            continue
+        Ab = incs[b]
+        tr = Ab.data[0] + Ab.data[4] + Ab.data[8]
+        ctx.decide("D1/T9-traceless-increment", rat_is_zero(tr.a), sc_new, None, construct=f"{short}:increment[{b}]-traceless",
+                   detail="the argument of the matrix exponential (viscous strain increment) is identically traceless: det Fv is preserved",
+                   bad_detail=f"{short}: the viscous strain increment of branch {b} has trace {_short(tr.a)}: viscous flow would change volume")
+        rule = "D3/T7-update-factor"
+        cons = f"{short}:factor[{b}]"
+        try:
+            lims = [limit_inf(x.a, "dt") for x in Ab.data]
+        except _EXC as ex:
+            ctx.undecided(rule, sc_new, None, construct=cons, detail=f"the increment is not a rational function of dt: {ex}")
+            continue
+        if any(l == "inf" for l in lims):
+            ctx.refuted(rule, sc_new, None, construct=cons,
+                        detail=f"{short}: the viscous strain increment of branch {b} grows without bound as dt -> infinity (backward Euler gives dt/(tau+dt) dev(E), which tends to dev(E))")
+            continue
+        if any(l is None for l in lims):
+            ctx.undecided(rule, sc_new, None, construct=cons, detail="limit of the increment for dt -> infinity not computable")
+            continue
+        T = Arr([Dual(l) for l in lims], (3, 3))
+        p = next((i for i, l in enumerate(lims) if not rat_is_zero(l)), None)
+        if p is None:
+            ctx.refuted(rule, sc_new, None, construct=cons,
+                        detail=f"{short}: the viscous strain increment of branch {b} tends to 0 as dt -> infinity: the branch never relaxes to equilibrium")
+            continue
+        # both are linear in the strain symbols: the ratio of the coefficients of one of them is the factor
+        a1 = next((a for a in sorted(lims[p].atoms()) if is_strain(a)), None)
+        c_inc, c_lim = _coeffk(Ab.data[p].a, a1, 1), _coeffk(lims[p], a1, 1)
+        if a1 is None or c_inc is None or c_lim is None or rat_is_zero(c_lim):
+            ctx.undecided(rule, sc_new, None, construct=cons, detail="the relaxed increment does not depend on the trial strain")
+            continue
+        f = simplify(_A.norm(c_inc / c_lim))
+        prop = all(_A.equal(x.a, _A.norm(f * l)) for x, l in zip(Ab.data, lims))
+        if not prop or any(is_strain(a) for a in f.atoms()):
+            ctx.undecided(rule, sc_new, None, construct=cons, detail="the increment is not (a function of dt) x (a dt-independent tensor)")
+            continue
+        tau_atoms = sorted(a for a in f.atoms() if _suffix(a, TAU_KEY) is not None)
+        l0 = None
+        try:
+            l0 = _A.subst(f, "dt", _A.const(0))
+        except (ZeroDivisionError, NotPolynomial):
+            pass
+        s_f, s_1f = rat_sign(f, I.positive), rat_sign(_A.norm(_A.const(1) - f), I.positive)
+        if l0 is None or not rat_is_zero(l0) or s_f == -1 or s_1f == -1:
+            ctx.refuted(rule, sc_new, None, construct=cons,
+                        detail=f"{short}: increment factor of branch {b} is {_short(f)}: value at dt = 0 is {('undefined' if l0 is None else _short(l0))}, "
+                               f"sign of f: {s_f}, sign of 1 - f: {s_1f}; backward Euler gives dt/(tau+dt) (0 at dt = 0, in (0,1), limit 1 at infinity)")
+            continue
+        okf = len(tau_atoms) == 1 and _A.equal(f, _A.norm(_A.atom("dt") / (_A.atom(tau_atoms[0]) + _A.atom("dt"))))
+        ori = _orientation(I, H, Fv, T, b, is_strain)
+        if ori == -1:
+            ctx.refuted(rule, sc_new, None, construct=cons,
+                        detail=f"{short}: the viscous strain increment of branch {b} is a NEGATIVE multiple of the deviatoric trial elastic strain (an increasing function of "
+                               f"the elastic Cauchy-Green tensor F Fv^-1): the update moves the viscous distortion away from equilibrium, the stored energy grows at fixed deformation")
+            continue
+        if not okf:
+            # backward Euler with some time constant X:  f = dt/(X + dt)  <=>  X = dt (1 - f)/f  is free of dt
+            try:
+                X = simplify(_A.norm(_A.atom("dt") * (_A.const(1) - f) / f))
+            except (ZeroDivisionError, NotPolynomial):
+                X = None
+            xa = _single_atom(X, "prop<") if X is not None and "dt" not in X.atoms() else None
+            if xa is not None and _suffix(xa, TAU_KEY) is None:
+                ctx.refuted("D4/T5-property-slots", fac, None, construct=f"{short}:branch-{b}-slots",
+                            detail=f"{short}: branch {b} relaxes with the time constant {xa}, which is not a relaxation time: the property vector and the "
+                                   f"indices the branch reads disagree")
+        ctx.decide(rule, True if (okf and s_f == 1 and s_1f == 1 and ori == 1) else None, sc_new, None, construct=cons,
+                   detail="increment = +[dt/(tau+dt)] dev(E), E increasing in the elastic Cauchy-Green tensor: 0 at dt=0, in (0,1), -> 1 as dt -> inf",
+                   bad_detail=(f"{short}: increment factor of branch {b} is {_short(f)}: the limits are right but it is not the backward Euler factor dt/(tau+dt) of one relaxation time"
+                               if not okf else f"{short}: the relaxed increment of branch {b} is not recognised as a positive multiple of dev(g(C_e)) with g increasing and "
+                                               f"C_e the elastic Cauchy-Green tensor of this branch: its direction is not established"))
+        if okf:
+            facs[b], Ts[b], taus[b] = f, T, tau_atoms[0]
+    # ---- energy: equilibrium part, non-equilibrium coefficients
+    try:
+        Weq = _drop(W.a, is_strain)
+        Wneq = simplify(_A.norm(W.a - Weq))
+    except _EXC as ex:
+        ctx.undecided("D3/T7-energy-limits", sc_W, None, construct=f"{short}:energy", detail=f"{type(ex).__name__}: {ex}")
+        return
+    if "dt" in Weq.atoms():
+        ctx.undecided("D3/T7-energy-limits", sc_W, None, construct=f"{short}:energy", detail="the strain-free part of the energy depends on dt")
+        return
+    if len(facs) < nb:
+        ctx.undecided("D3/T7-energy-limits", sc_W, None, construct=f"{short}:energy-form",
+                      detail=f"increment factor of {nb - len(facs)} branch(es) not established: the expected energy cannot be written down")
+        return
+    q = {b: _frob(Ts[b]) for b in range(nb)}
+    # ---- D4: pairing of modulus and relaxation time per branch (roles from the values)
+    rule = "D4/T5-property-slots"
+    try:
+        W0n = simplify(_A.norm(_A.subst(_A.norm(W.a), "dt", _A.const(0)) - Weq))
+    except (ZeroDivisionError, NotPolynomial):
+        W0n = None
+    G_used = {}
+    for b in range(nb):
+        # coefficient of q_b in W(dt = 0) - W_eq: compare one monomial that occurs in q_b only
+        g = None
+        if W0n is not None:
+            probe = next((a for x in Ts[b].data for a in sorted(x.a.atoms()) if is_strain(a)), None)
+            if probe is not None:
+                cq = _coeff2(q[b].a, probe)
+                cw = _coeff2(W0n, probe)
+                if cq is not None and cw is not None and not rat_is_zero(cq):
+                    g = simplify(_A.norm(cw / cq))
+        G_used[b] = g
+        sfx = _suffix(taus[b], TAU_KEY)
+        want = f"prop<{G_KEY}{sfx}>"
+        got = _single_atom(g) if g is not None else None
+        dup = [c for c in range(b) if taus.get(c) == taus[b]]
+        ctx.decide(rule, None if g is None else (got == want and not dup), fac, None, construct=f"{short}:branch-{b}-slots",
+                   detail=f"branch {b} stores energy with '{G_KEY}{sfx}' and relaxes with '{TAU_KEY}{sfx}'",
+                   bad_detail=f"{short}: branch {b} relaxes with {taus[b]} but its instantaneous stiffness is {_short(g) if g is not None else '?'} (expected {want})"
+                              + (f"; branch(es) {dup} use the same relaxation time" if dup else ""))
+    Gs = {b: Dual(_A.atom(f"prop<{G_KEY}{_suffix(taus[b], TAU_KEY)}>")) for b in range(nb)}
+    # ---- D2: dissipated energy
+    rule = "D2/T8-dissipation-nonnegative"
+    Dexp = Dual(0)
+    Wexp = Dual(Weq)
+    W0 = Dual(Weq)
+    for b in range(nb):
+        f, tau = Dual(facs[b]), Dual(_A.atom(taus[b]))
+        Dexp = Dexp + Gs[b] * tau * f * f / dt * q[b]
+        Wexp = Wexp + Gs[b] * ((Dual(1) - f) * (Dual(1) - f) + tau * f * f / dt) * q[b]
+        W0 = W0 + Gs[b] * q[b]
+    if Dis is None or not isinstance(Dis, Dual):
+        ctx.undecided(rule, sc_D, None, construct=f"{short}:dissipated-energy", detail="the model reports no scalar dissipated energy (compute_material_qoi)")
+    else:
+        for b in range(nb):
+            probe = next((a for x in Ts[b].data for a in sorted(x.a.atoms()) if is_strain(a)), None)
+            cq, cd = _coeff2(q[b].a, probe), _coeff2(_A.norm(Dis.a), probe)
+            c = simplify(_A.norm(cd / cq)) if cq is not None and cd is not None and not rat_is_zero(cq) else None
+            want = simplify(_A.norm((Gs[b] * Dual(_A.atom(taus[b])) * Dual(facs[b]) * Dual(facs[b]) / dt).a))
+            sgn = rat_sign(c, I.positive) if c is not None else None
+            ok = None if c is None else (_A.equal(c, want) and sgn == 1)
+            if c is not None and sgn in (-1, 0):
+                ok = False
+            ctx.decide(rule, ok, sc_D, None, construct=f"{short}:potential[{b}]=G*tau*|dev D|^2",
+                       detail="dissipation of the branch = dt * G tau |dev(increment/dt)|^2: a positive multiple of a sum of squares",
+                       bad_detail=f"{short}: the dissipated energy of branch {b} is ({_short(c) if c is not None else '?'}) * |dev E|^2 (sign {sgn}); "
+                                  f"the dissipative part of the incremental potential is G*tau*(dt/(tau+dt))^2/dt * |dev E|^2 > 0")
+        okd = _A.equal(Dis.a, Dexp.a)
+        ctx.decide(rule, okd, sc_D, None, construct=f"{short}:dissipated-energy",
+                   detail="dissipated energy = sum_b G_b tau_b f_b^2/dt |dev E_b|^2 >= 0 (each factor positive)",
+                   bad_detail=f"{short}: reported dissipated energy is {_short(Dis.a)}; expected sum over branches of G*tau*(dt/(tau+dt))^2/dt*|dev E|^2")
+    # ---- D3: energy form and limits
+    rule = "D3/T7-energy-limits"
+    oke = _A.equal(W.a, Wexp.a)
+    ctx.decide(rule, oke, sc_W, None, construct=f"{short}:energy-form",
+               detail="W = W_eq + sum_b G_b[(1-f_b)^2 + tau_b f_b^2/dt]|dev E_b|^2 with the same increment in stored energy and dissipation",
+               bad_detail=f"{short}: energy is not W_eq + sum_b G_b[(1-f_b)^2 + tau_b f_b^2/dt]|dev E_b|^2 (difference {_short(simplify(_A.norm(W.a - Wexp.a)))}): stored energy, "
+                          f"increment and dissipation do not use the same updated strain")
+    if W0n is None:
+        ctx.refuted(rule, sc_W, None, construct=f"{short}:dt->0-instantaneous", detail=f"{short}: the energy has no finite value at dt = 0")
+    else:
+        ok0 = _A.equal(_A.norm(W0n + Weq), W0.a)
+        ctx.decide(rule, ok0, sc_W, None, construct=f"{short}:dt->0-instantaneous",
+                   detail="W(dt = 0) = W_eq + sum_b G_b |dev E_b|^2 (all branches elastic)",
+                   bad_detail=f"{short}: at dt = 0 the non-equilibrium energy is {_short(W0n)}, not the instantaneous value sum_b G_b|dev E_b|^2")
+    try:
+        li = limit_inf(Wneq, "dt")
+    except _EXC:
+        li = None
+    oki = True if (isinstance(li, Rat) and rat_is_zero(li)) else (None if li is None else False)
+    ctx.decide(rule, oki, sc_W, None, construct=f"{short}:dt->inf-equilibrium",
+               detail="W - W_eq -> 0 as dt -> infinity",
+               bad_detail=f"{short}: as dt -> infinity the non-equilibrium part of the energy tends to {li if li == 'inf' else _short(li)}, not 0")
+    # ---- D4: public index constants against the property vector the kernels index
+    slot_table(ctx, I, mod, short)
 
 
-def _reinc(inc, E, nb):
-    """increment computed for generic `e..` strain, re-expressed for the branch strain symbols."""
-    if nb == 1:
-        return inc
-    out = []
-    names = {(i, j): (f"e{min(i, j)}{max(i, j)}") for i in range(3) for j in range(3)}
-    for x in inc.data:
-        r = x.a
-        for (i, j), nm in names.items():
-            r = _A.subst(r, nm, E.data[i * 3 + j].a)
-        out.append(Dual(r))
-    return Arr(out, inc.shape)
+def _coeff2(r: Rat, atom):
+    return _coeffk(r, atom, 2)
+
+
+def _coeffk(r: Rat, atom, k):
+    """coefficient of atom^k in r (a polynomial in atom; None if atom occurs in the denominator)"""
+    r = _A.norm(r)
+    if atom is None or atom in r.d.atoms():
+        return None
+    out = {}
+    for m, c in r.n.t.items():
+        dm = dict(m)
+        if dm.get(atom, 0) == k:
+            dm.pop(atom)
+            mm = tuple(sorted(dm.items()))
+            out[mm] = out.get(mm, 0) + c
+    return simplify(Rat(Poly(out), r.d))
+
+
+def _inv3(M):
+    """exact inverse of a 3x3 matrix of Fractions (list of rows)"""
+    c = lambda i, j: M[(i + 1) % 3][(j + 1) % 3] * M[(i + 2) % 3][(j + 2) % 3] - M[(i + 1) % 3][(j + 2) % 3] * M[(i + 2) % 3][(j + 1) % 3]
+    d = sum(M[0][j] * c(0, j) for j in range(3))
+    if d == 0:
+        return None
+    return [[c(j, i) / d for j in range(3)] for i in range(3)]
+
+
+def _det_witness(I, exps, block: Arr, nb):
+    """explicit admissible data for which det(new block) != det(old block) = 1, or None.
+    The old distortions are unimodular; then either (a) the block is built from exponentials X and old distortions only -- every
+    symmetric positive unimodular X is the exponential of some traceless increment, X = diag(2, 1/2, 1) -- or (b) it contains no
+    exponential and does not read the displacement gradient directly: the trial strain (any symmetric tensor is the trial strain of
+    some deformation), dt and the material constants are free."""
+    atoms = set()
+    for x in block.data:
+        atoms |= set(x.a.atoms())
+    xs = {a for (_, X) in exps for e in X.data for a in e.a.atoms()}
+    ms = {a for (_, X, _) in I.spec_calls for e in X.data for a in e.a.atoms()} - xs
+    has_x, has_m, has_h = bool(atoms & xs), bool(atoms & ms), any(a.startswith("h") and len(a) == 3 for a in atoms)
+    if (has_x and (has_m or has_h)) or (has_m and has_h):
+        return None
+    sub = {}
+    for k in range(9 * nb):
+        i, j = divmod(k % 9, 3)
+        sub[f"s{k}"] = Fraction(1 if (i == j or (i, j) == (0, 1)) else 0)
+    sub["dt"] = Fraction(1, 2)
+
+    def value(r):
+        r = _A.norm(r)
+        for a in sorted(r.atoms()):
+            if a in sub:
+                r = _A.subst(r, a, _A.const(sub[a]))
+            elif a.startswith("prop<"):
+                r = _A.subst(r, a, _A.const(1))
+        return rat_const(r)
+    shown = []
+    for (kind, arg, sym, extra) in I.calls:
+        names = [_single_atom(e.a) for e in sym.data]
+        if kind == "x" or (kind == "m" and str(extra).startswith("exp[")):
+            vals = [2, 0, 0, 0, Fraction(1, 2), 0, 0, 0, 1]
+        elif kind == "m":
+            vals = [Fraction(3, 10), Fraction(1, 10), 0, Fraction(1, 10), Fraction(-1, 10), Fraction(1, 20), 0, Fraction(1, 20), Fraction(-1, 5)]
+        else:
+            try:
+                M = [[value(arg.data[i * 3 + j].a) for j in range(3)] for i in range(3)]
+            except _EXC:
+                M = None
+            if M is None or any(v is None for row in M for v in row):
+                continue
+            Mi = _inv3(M)
+            if Mi is None:
+                continue
+            vals = [Mi[i][j] for i in range(3) for j in range(3)]
+        for nm, v in zip(names, vals):
+            if nm:
+                sub[nm] = Fraction(v)
+    try:
+        vals = [value(x.a) for x in block.data]
+        if any(v is None for v in vals):
+            return None
+        d = rat_const(_det3(Arr([Dual(v) for v in vals], (3, 3))).a)
+    except _EXC:
+        return None
+    if d is None or d == 1:
+        return None
+    if has_x:
+        return (f"for expm(increment) = diag(2, 1/2, 1) (traceless increment) and the unimodular old distortion [[1,1,0],[0,1,0],[0,0,1]] "
+                f"the new distortion has determinant {d}, not 1")
+    return (f"for the unimodular old distortion [[1,1,0],[0,1,0],[0,0,1]], the trial strain [[3/10,1/10,0],[1/10,-1/10,1/20],[0,1/20,-1/5]], dt = 1/2 and unit "
+            f"material constants the new distortion has determinant {d}, not 1 (no matrix exponential of a traceless increment is applied)")
+
+
+def _orientation(I, H, Fv, T: Arr, b, is_strain):
+    """+1 / -1 / None: is the relaxed increment T_b a positive multiple of dev(E_b), E_b an *increasing* isotropic function of the elastic
+    Cauchy-Green tensor of branch b (F Fv_b^-1)?  (An increment of the opposite sign drives the branch away from equilibrium.)"""
+    F = H.zip(Arr([Dual(1 if i == j else 0) for i in range(3) for j in range(3)], (3, 3)), lambda x, y: x + y)
+    by_sym = {}
+    for (arg, sym, fk) in I.spec_calls:
+        by_sym[_single_atom(sym.data[1].a)] = (arg, sym, fk)
+
+    def slope(fk_fn):
+        """sign of g'(1) of the scalar function of a spectral call"""
+        te.OPAQUE[0] = False
+        try:
+            r = I.num(I.call(fk_fn, [Dual(1, 1)], {}))
+            c = rat_const(r.b)
+            return None if c is None or c == 0 else (1 if c > 0 else -1)
+        except _EXC:
+            return None
+
+    def affine_in_one_symbol(X: Arr):
+        """X == c * M + c0 * 1 (or c * dev(M) + c0 1) for one spectral symbol M: (c, key of M)"""
+        a01 = [a for a in X.data[1].a.atoms() if is_strain(a)]
+        if len(a01) != 1 or a01[0] not in by_sym:
+            return None
+        c = _coeffk(X.data[1].a, a01[0], 1)
+        if c is None or rat_is_zero(c):
+            return None
+        _, M, _ = by_sym[a01[0]]
+        # off-diagonal entries must be c * M_ij
+        for (i, j) in ((0, 1), (0, 2), (1, 2), (1, 0), (2, 0), (2, 1)):
+            if not _A.equal(X.data[i * 3 + j].a, _A.norm(c * M.data[i * 3 + j].a)):
+                return None
+        # differences of diagonal entries as well (a multiple of the identity may be added or removed)
+        for (i, j) in ((0, 1), (1, 2)):
+            if not _A.equal(_A.norm(X.data[i * 4].a - X.data[j * 4].a), _A.norm(c * (M.data[i * 4].a - M.data[j * 4].a))):
+                return None
+        return c, a01[0]
+
+    def orient(X: Arr, depth=0):
+        if depth > 4:
+            return None
+        for (varg, V, _) in I.inv_calls:
+            if _arr_equal(varg, Fv[b]):
+                Fe = matmul(F, V)
+                if _arr_equal(X, matmul(Fe.T(), Fe)) or _arr_equal(X, matmul(Fe, Fe.T())):
+                    return 1
+        hit = affine_in_one_symbol(X)
+        if hit is None:
+            return None
+        c, key = hit
+        sg = rat_sign(c, I.positive)
+        arg, _, _ = by_sym[key]
+        fn = I.spec_fns.get(key)
+        sl = slope(fn) if fn is not None else None
+        o = orient(arg, depth + 1)
+        if sg in (1, -1) and sl is not None and o is not None:
+            return sg * sl * o
+        return None
+    try:
+        return orient(T)
+    except _EXC:
+        return None
+    finally:
+        te.OPAQUE[0] = False
+
+
+def _scope_of_field(ctx, model, field, default):
+    try:
+        f = model.get(field)
+    except (ValueError, KeyError):
+        return default
+    sc = getattr(f, "scope", None)
+    if sc is None:
+        return default
+    while sc is not None and sc.kind not in ("function",):
+        sc = sc.parent
+    return sc or default
+
+
+PROP_NAMES = {"PROPS_K_eq": "equilibrium bulk modulus", "PROPS_G_eq": "equilibrium shear modulus", "PROPS_G_neq": G_KEY, "PROPS_TAU": TAU_KEY}
+
+
+def slot_table(ctx, I, mod, short):
+    """module constants PROPS_<NAME>[_k] (public) must address '<key>[ k]' in the vector of material constants the kernels index"""
+    rule = "D4/T5-property-slots"
+    if len(I.prop_vectors) != 1:
+        ctx.undecided(rule, mod.scope, None, construct=f"{short}:property-vector",
+                      detail=f"{len(I.prop_vectors)} vectors of material constants are indexed by the kernels (one expected)")
+        return
+    vec = I.prop_vectors[0]
+    n = 0
+    for name in sorted(mod.scope.bindings):
+        m = re.fullmatch(r"(PROPS_[A-Za-z]+(?:_[A-Za-z]+)*?)(?:_(\d+))?", name)
+        if m is None or m.group(1) not in PROP_NAMES:
+            continue
+        key = PROP_NAMES[m.group(1)] + (f" {m.group(2)}" if m.group(2) else "")
+        try:
+            idx = I.as_int(I.module_value(mod, name))
+            got = vec.data[idx].a
+            ok = _A.equal(got, _A.atom(f"prop<{key}>"))
+        except _EXC as ex:
+            ctx.undecided(rule, mod.scope, None, construct=f"{short}:{name}", detail=str(ex))
+            continue
+        n += 1
+        ctx.decide(rule, ok, mod.scope, None, construct=f"{short}:{name}", detail=f"props[{name}={idx}] is '{key}'",
+                   bad_detail=f"{short}: props[{name}={idx}] holds {got!r}, not '{key}' (index constant and order of the property vector disagree)")
 
 
 def variants(repo):
@@ -313,12 +718,29 @@ def variants(repo):
         Variant("dissipated energy without dt", V, sub_in_func("_compute_dissipated_energy", "    return dt * _dissipation_potential(Dv, props)", "    return _dissipation_potential(Dv, props)"), "D2/T8-dissipation-nonnegative"),
         Variant("energy at trial strain (multi)", MB, sub_in_func("_energy_density", "_neq_strain_energy(Ee, props, _return_Gneq_id_for_branch(n))", "_neq_strain_energy(Ee_trial, props, _return_Gneq_id_for_branch(n))"), "D3/T7-energy-limits"),
         Variant("energy at trial strain (single)", V, sub_in_func("_energy_density", "    W_neq = _neq_strain_energy(Ee, props)", "    W_neq = _neq_strain_energy(Ee_trial, props)"), "D3/T7-energy-limits"),
-        Variant("branch 2 reads branch 1 relaxation time", MB, sub_in_func("_compute_state_increment", "    tau   = props[prop_id + 1]", "    tau   = props[PROPS_TAU_1]"), "D3/T7-update-factor"),
+        Variant("branch 2 reads branch 1 relaxation time", MB, sub_in_func("_compute_state_increment", "    tau   = props[prop_id + 1]", "    tau   = props[PROPS_TAU_1]"), "D4/T5-property-slots"),
         Variant("branch index map", MB, sub("    return PROPS_G_neq_1 + 2 * n", "    return PROPS_G_neq_1 + n"), "D4/T5-property-slots"),
         Variant("property order swapped", MB, sub("        properties['non equilibrium shear modulus 2'],\n        properties['relaxation time 2'],", "        properties['relaxation time 2'],\n        properties['non equilibrium shear modulus 2'],"), "D4/T5-property-slots"),
         Variant("state update uses wrong branch distortion", MB, sub_in_func("_compute_state_new", "      Fv_old = state_temp.reshape((3, 3))", "      Fv_old = _return_state_for_branch(stateOld, 0).reshape((3, 3))"), "D1/T5-distortion-update"),
+        Variant("state update symmetrised", V, sub_in_func("_compute_state_new", "    Fv_new = linalg.expm(delta_Ev)@Fv_old", "    Fv_new = TensorMath.sym(linalg.expm(delta_Ev)@Fv_old)"), "D1/T5-distortion-update"),
+        Variant("trial strain of branch 0 everywhere in the update", MB, sub_in_func("_compute_state_new", "      Ee_trial = _compute_elastic_logarithmic_strain(dispGrad, state_temp)", "      Ee_trial = _compute_elastic_logarithmic_strain(dispGrad, _return_state_for_branch(stateOld, 0))"), "D1/T5-distortion-update"),
+        Variant("increment factor squared", V, sub_in_func("_compute_state_increment", "    return dt * integration_factor * Ee_dev / tau", "    return dt * integration_factor * integration_factor * Ee_dev / tau"), "D3/T7-update-factor"),
+        Variant("stored energy with the wrong branch modulus", MB, sub_in_func("_neq_strain_energy", "    G_neq = props[prop_id]", "    G_neq = props[PROPS_G_neq_1]"), "D4/T5-property-slots"),
         Variant("left Cauchy-Green", V, sub("TensorMath.log_sqrt_symm(Fe_trial.T @ Fe_trial)", "TensorMath.log_sqrt_symm(Fe_trial @ Fe_trial.T)"), "D1/T9-frames"),
         Variant("reformat single", V, reformat(), None),
         Variant("reformat multi", MB, reformat(), None),
         Variant("equivalent factor", V, sub_in_func("_compute_state_increment", "integration_factor = 1. / (1. + dt / tau)", "integration_factor = tau / (tau + dt)"), None),
+        Variant("increment written as dt/(tau+dt)", V, sub_in_func("_compute_state_increment", "    return dt * integration_factor * Ee_dev / tau", "    return (dt / (tau + dt)) * Ee_dev"), None),
+        Variant("strain via log_symm", V, sub("TensorMath.log_sqrt_symm(Fe_trial.T @ Fe_trial)", "0.5 * TensorMath.log_symm(Fe_trial.T @ Fe_trial)"), None),
+        Variant("inverse via TensorMath", MB, sub("Fe_trial = F @ np.linalg.inv(Fv_old)", "Fe_trial = F @ TensorMath.inv(Fv_old)"), None),
+        Variant("strain as log of the square root", V, sub("TensorMath.log_sqrt_symm(Fe_trial.T @ Fe_trial)", "TensorMath.log_symm(TensorMath.sqrt_symm(Fe_trial.T @ Fe_trial))"), None),
+        Variant("symmetric exponential in the update", MB, sub_in_func("_compute_state_new", "linalg.expm(delta_Ev)@Fv_old", "TensorMath.exp_symm(delta_Ev)@Fv_old"), None),
+        Variant("branch state by np.split", MB, sub("    return state.at[n * VISCOUS_DISTORTION_SIZE : (n + 1) * VISCOUS_DISTORTION_SIZE].get()", "    return np.split(state, NUM_PRONY_TERMS)[n]"), None),
+        Variant("property vector from a comprehension", MB, sub("    props = np.array([\n        properties['equilibrium bulk modulus'],\n        properties['equilibrium shear modulus'],\n        properties['non equilibrium shear modulus 1'],\n        properties['relaxation time 1'],\n        properties['non equilibrium shear modulus 2'],\n        properties['relaxation time 2'],\n        properties['non equilibrium shear modulus 3'],\n        properties['relaxation time 3']\n    ])\n",
+                "    branch = [properties[f'{key} {n + 1}'] for n in range(NUM_PRONY_TERMS) for key in ('non equilibrium shear modulus', 'relaxation time')]\n    props = np.array([properties['equilibrium bulk modulus'], properties['equilibrium shear modulus']] + branch)\n"), None),
+        Variant("exponential of the wrong sign", V, sub_in_func("_compute_state_new", "linalg.expm(delta_Ev)@Fv_old", "linalg.expm(-delta_Ev)@Fv_old"), "D3/T7-update-factor"),
+        Variant("update without the exponential map", V, sub_in_func("_compute_state_new", "linalg.expm(delta_Ev)@Fv_old", "(np.identity(3) + delta_Ev)@Fv_old"), "D1/T5-distortion-update"),
+        Variant("branch loop unrolled into a comprehension", MB, sub_in_func("_compute_dissipated_energy",
+                "    Psi = 0.0\n    for n in range(NUM_PRONY_TERMS):\n      state_temp = _return_state_for_branch(state, n)\n      Ee_trial = _compute_elastic_logarithmic_strain(dispGrad, state_temp)\n      delta_Ev = _compute_state_increment(Ee_trial, dt, props, _return_Gneq_id_for_branch(n))\n      Dv = delta_Ev / dt\n      Psi = Psi + dt * _dissipation_potential(Dv, props, _return_Gneq_id_for_branch(n))\n\n    return Psi",
+                "    def one(n):\n      Ee_trial = _compute_elastic_logarithmic_strain(dispGrad, _return_state_for_branch(state, n))\n      pid = _return_Gneq_id_for_branch(n)\n      return dt * _dissipation_potential(_compute_state_increment(Ee_trial, dt, props, pid) / dt, props, pid)\n    return sum([one(n) for n in range(NUM_PRONY_TERMS)])"), None),
     ]
